@@ -9,6 +9,9 @@ CHECKS = {
  "C03": ("model_checking", "exhaustive configuration lattice on the real solve_ivp with an interval/status trace monitor",
          "The full product method x direction x x0 x span (1e-12..1e9, inf) x first_step x max_step x t_eval x dense x events x problem is run on the real code; a monitor checks ordering, range of every interface call, status <=> coverage and shapes on every execution. Right level: the landing logic fails only on numeric coincidences (first_step >= span, max_step dividing the span, sub-1e-12 spans) which the lattice places by construction.",
          "trusts the instrumented IVP to see every ode/events/jac call; 'to rounding' = 8 ulp (1+n/64); validity predicate of DESIGN §2.4", "DESIGN.md §3 C03", "E1"),
+ "C04": ("fault_enumeration", "deviation-bounded fault enumeration at every RHS call index, executions in watched child processes",
+         "For every base configuration (method x problem incl. finite-time blow-up, stiff decay, discontinuities x direction x max_steps x min_step) every RHS call index of the nominal run is a decision point whose answer is replaced by NaN/+inf/-inf/1e300 once or persistently; all executions with <= d deviations (d=1 quick, 2 thorough) run to completion under a call budget and a wall-clock watchdog; the C03 prefix monitor and the finiteness clause are evaluated on each.",
+         "a run exceeding 10^6 RHS calls or stalling 20 s is a verdict (no return); RK4 exempt from finiteness as the property says", "DESIGN.md §3 C04", "E2"),
  "C16": ("model_checking", "exhaustive enumeration of all small-alphabet matrices (real and complex, n<=3) plus enumerated structured families to 12x12, residuals in double-double",
          "Every matrix over the alphabet is factorised and solved on the real lu_decomp/lin_solve(_complex); exact integer determinants decide singular vs nonsingular; residual bound, multiplier bound, error kinds and immutability of the factors are checked on every case.",
          "backward-stability constant c = 8*rho (growth factor read off the factors, asserted <= 2^(n-1)); complex multipliers bounded by sqrt(2) because the port pivots on |re|+|im|", "DESIGN.md §3 C16", "E1"),
